@@ -1107,7 +1107,12 @@ func (c *Ctx) rebuild(t *Term, a []*Term) *Term {
 // Rebuild re-applies the simplifying constructors bottom-up over the whole term (after replacing the
 // keys of m), so that knowledge installed in the context (localDistinct) takes effect.
 func (c *Ctx) Rebuild(t *Term, m map[*Term]*Term) *Term {
-	memo := map[*Term]*Term{}
+	return c.RebuildMemo(t, m, map[*Term]*Term{})
+}
+
+// RebuildMemo is Rebuild with a memo table the caller may share between calls that use the SAME map m
+// (and the same installed knowledge).
+func (c *Ctx) RebuildMemo(t *Term, m map[*Term]*Term, memo map[*Term]*Term) *Term {
 	var rec func(t *Term) *Term
 	rec = func(t *Term) *Term {
 		if r, ok := m[t]; ok {
